@@ -250,6 +250,12 @@ def sortOk (lt : β → β → Bool) (key : α → β) (input result : List α) 
 def unionOk (eqv : α → α → Bool) (xs ys result : List α) : Bool :=
   result.all (fun r => decide (r ∈ xs ++ ys)) && (xs ++ ys).all (fun z => result.any (fun r => eqv r z))
 
+/-- `union`, duplicates between the lists: "if there is a duplication between list-1 and list-2, only one of
+    the duplicate instances is in the result" (duplicates inside one list may or may not be repeated): the
+    result holds no more elements matching `z` than the list that has most of them -/
+def unionTight (eqv : α → α → Bool) (xs ys result : List α) : Bool :=
+  (xs ++ ys).all (fun z => decide (result.countP (eqv z) ≤ max (xs.countP (eqv z)) (ys.countP (eqv z))))
+
 /-- `intersection` as a set: only elements of the first list that match something in the second;
     every such element is in the result or represented there by an element matching it
     (duplicates under the test may or may not be repeated) -/
